@@ -600,7 +600,222 @@ class Analysis(object):
             self._loop_strides(fname, fn, info, out)
             self._use_after_free(fname, fn, info, out)
             self._recv_count_uses(fname, fn, info, out)
-        return out
+            self._accumulator_indexes(fname, fn, info, out)
+        # one finding per site and clause (a pointer with several possible origins reaches the same sink once)
+        uniq = []
+        seen = set()
+        for f in out:
+            k = (f['kind'], f['fn'], f['loc'], f['text'])
+            if k not in seen:
+                seen.add(k)
+                uniq.append(f)
+        return uniq
+
+    # ---- K8: offsets that accumulate from one loop iteration (datagram) to the next ----
+    def gep_affine(self, bty, idx):
+        """byte offset of a getelementptr with exactly one variable index: (constant part, register, scale)"""
+        mod = self.mod
+        off = 0
+        var = None
+        t = bty
+        first = True
+        for (it, iv) in idx:
+            if iv[0] == 'c':
+                w = mod.resolve(it)[1] if mod.resolve(it)[0] == 'i' else 64
+                c = iv[1] - (1 << w) if iv[1] >> (w - 1) else iv[1]
+            elif iv[0] == 'r' and var is None:
+                c = None
+            else:
+                return None
+            if first:
+                scale = mod.sizeof(t)
+                first = False
+            else:
+                rt = mod.resolve(t)
+                if rt[0] == 's':
+                    if c is None:
+                        return None
+                    fo, et = mod.field_offset(rt, c)
+                    off += fo
+                    t = et
+                    continue
+                elif rt[0] in ('a', 'vec'):
+                    scale = mod.sizeof(rt[2])
+                    t = rt[2]
+                else:
+                    return None
+            if c is None:
+                var = (iv[1], scale)
+            else:
+                off += c * scale
+        if var is None:
+            return None
+        return off, var[0], var[1]
+
+    def _const_cone(self, info, reg):
+        """registers that determine `reg` if it is built from constants, additions/subtractions, integer casts, phis and
+        selects only (no load, call, argument): its value is fixed by the control flow alone; None otherwise"""
+        cone = set()
+        work = [reg]
+        while work:
+            r = work.pop()
+            if r in cone:
+                continue
+            ins = info.defs.get(r)
+            if ins is None:
+                return None
+            if ins.op == 'phi':
+                ops = [tv for (tv, _) in ins.x['incoming']]
+            elif ins.op in ('add', 'sub'):
+                ops = list(ins.args)
+            elif ins.op in ('zext', 'sext', 'trunc', 'freeze'):
+                ops = [ins.args[0]]
+            elif ins.op == 'select':
+                ops = list(ins.args[1:])
+            else:
+                return None
+            cone.add(r)
+            for (t, v) in ops:
+                if v[0] == 'r':
+                    work.append(v[1])
+                elif v[0] != 'c':
+                    return None
+        return cone
+
+    def _cone_ranges(self, info, cone):
+        INF = float('inf')
+        rng = {}
+
+        def sval(t, c):
+            w = self.mod.resolve(t)[1] if self.mod.resolve(t)[0] == 'i' else 64
+            return c - (1 << w) if c >> (w - 1) else c
+
+        def val(tv):
+            t, v = tv
+            if v[0] == 'c':
+                c = sval(t, v[1])
+                return (c, c)
+            return rng.get(v[1])
+
+        def step(widen):
+            ch = False
+            for r in cone:
+                ins = info.defs[r]
+                if ins.op == 'phi':
+                    vs = [val(tv) for (tv, _) in ins.x['incoming']]
+                elif ins.op == 'select':
+                    vs = [val(tv) for tv in ins.args[1:]]
+                elif ins.op in ('add', 'sub'):
+                    a, b = val(ins.args[0]), val(ins.args[1])
+                    if a is None or b is None:
+                        continue
+                    vs = [(a[0] + b[0], a[1] + b[1])] if ins.op == 'add' else [(a[0] - b[1], a[1] - b[0])]
+                else:
+                    vs = [val(ins.args[0])]
+                vs = [v for v in vs if v is not None]
+                if not vs:
+                    continue
+                new = (min(v[0] for v in vs), max(v[1] for v in vs))
+                old = rng.get(r)
+                if old is not None:
+                    new = (min(old[0], new[0]), max(old[1], new[1]))
+                    if widen and new != old:
+                        new = (-INF if new[0] < old[0] else new[0], INF if new[1] > old[1] else new[1])
+                if new != old:
+                    rng[r] = new
+                    ch = True
+            return ch
+        for k in range(40):
+            if not step(False):
+                return rng
+        for k in range(40):
+            if not step(True):
+                break
+        return rng
+
+    def _accumulator_indexes(self, fname, fn, info, out):
+        """K8: an index into an object of known size whose value is fixed by the control flow alone (constants, phis,
+        additions) must stay inside the object: an offset that is not reset on every path round the receive loop keeps
+        growing from one datagram to the next"""
+        for b in fn.order:
+            for ins in fn.blocks[b]:
+                if ins.op != 'getelementptr':
+                    continue
+                aff = self.gep_affine(ins.x['bty'], ins.args[1:])
+                if aff is None:
+                    continue
+                coff, reg, scale = aff
+                if self.taint.get((fname, reg)):
+                    continue
+                cone = self._const_cone(info, reg)
+                if not cone or not any(info.defs[r].op == 'phi' for r in cone):
+                    continue
+                rng = self._cone_ranges(info, cone).get(reg)
+                if rng is None:
+                    continue
+                lo, hi = rng
+                # refine with dominating comparisons of the index (or what it is cast from) with constants; a
+                # comparison with something else is a guard this clause cannot evaluate: stay silent
+                chain = {reg}
+                r = reg
+                while info.defs[r].op in ('zext', 'sext', 'trunc', 'freeze') and info.defs[r].args[0][1][0] == 'r':
+                    r = info.defs[r].args[0][1][1]
+                    chain.add(r)
+                opaque = False
+                for g in fn.order:
+                    term = fn.blocks[g][-1] if fn.blocks[g] else None
+                    if term is None or term.op != 'br' or len(term.x['targets']) != 2 or term.args[0][1][0] != 'r':
+                        continue
+                    c = info.defs.get(term.args[0][1][1])
+                    if c is None or c.op != 'icmp':
+                        continue
+                    (t1, x), (t2, y) = c.args
+                    pred = c.x['pred']
+                    if y[0] == 'r' and y[1] in chain:
+                        x, y = y, x
+                        pred = SWAP[pred]
+                    if x[0] != 'r' or x[1] not in chain:
+                        continue
+                    tsucc, fsucc = term.x['targets']
+                    for succ, truth in ((tsucc, True), (fsucc, False)):
+                        other = fsucc if truth else tsucc
+                        if succ == other or not info.dominates(succ, b) or len(info.pred.get(succ, [])) != 1:
+                            continue
+                        if y[0] != 'c':
+                            opaque = True
+                            continue
+                        w = self.mod.resolve(t1)[1] if self.mod.resolve(t1)[0] == 'i' else 64
+                        k = y[1] - (1 << w) if (y[1] >> (w - 1)) and pred[0] == 's' else y[1]
+                        p = pred if truth else {'slt': 'sge', 'sle': 'sgt', 'sgt': 'sle', 'sge': 'slt', 'ult': 'uge', 'ule': 'ugt',
+                                                'ugt': 'ule', 'uge': 'ult', 'eq': 'ne', 'ne': 'eq'}[pred]
+                        if p in ('slt', 'ult'):
+                            hi = min(hi, k - 1)
+                        elif p in ('sle', 'ule'):
+                            hi = min(hi, k)
+                        elif p in ('sgt', 'ugt'):
+                            lo = max(lo, k + 1)
+                        elif p in ('sge', 'uge'):
+                            lo = max(lo, k)
+                        elif p == 'eq':
+                            lo, hi = max(lo, k), min(hi, k)
+                        if p in ('ult', 'ule'):
+                            lo = max(lo, 0)
+                if opaque:
+                    continue
+                for (obj, off) in self.origin_of(fname, ins.args[0]):
+                    size = self.obj_size.get(obj)
+                    if size is None or off is None:
+                        continue
+                    first = off + coff + lo * scale
+                    last = off + coff + hi * scale
+                    # one past the end is a valid address to form; the element itself must exist when it is accessed,
+                    # which the access-size clauses check - here only an offset beyond one-past-the-end is reported
+                    if last > size or first < 0:
+                        def f(v):
+                            return 'unbounded' if v in (float('inf'), -float('inf')) else str(int(v))
+                        out.append({'kind': 'accumulated-index', 'fn': fname, 'loc': self.loc(ins), 'labels': [],
+                                    'text': 'offset built from constants only ranges over [%s, %s] here (it is not reset on every path '
+                                            'round the enclosing loop), %s has %d octets' % (f(first), f(last), obj, size)})
 
     # ---- K7: indexes / lengths derived from the receive count ---------------
     def _affine_of_recv(self, info, reg, depth=0):
